@@ -139,3 +139,15 @@ Definition verdict (h : list Z) (t : list (list Z)) : list Z :=
   let complete := Nat.eqb (length tr) (length os) in
   let '(p, c, st) := saccept_z (s_init_env true) tr3 0%Z in
   [enc_bool complete; p; c; enc_bool (c01_direct tr); enc_bool (c02_direct tr); st].
+
+(* ------------------------------------------------------------------ *)
+(* the `derive` domain (C18): one line = one case; first integer 0 = a
+   save/load conversion case, 1 = a #[derive(Component)] storage case *)
+From SV Require Export SaveLoad.DeriveCodec.
+
+Definition derive_line (l : list Z) : list (list Z) :=
+  match l with
+  | 0 :: r => derive_case r
+  | 1 :: r => [storage_case r]
+  | _ => [[3]]
+  end%Z.
